@@ -611,3 +611,129 @@ Proof.
     + apply lookup_in_keys in Hv. rewrite forallb_forall in Hk. rewrite (Hk k Hv). reflexivity.
     + now destruct (mem k (ids ms)).
 Qed.
+
+(* ------------------------------------------------------------------ structure members *)
+Lemma in_ids : forall {X} (mt : minfo * X) ms, In mt ms -> mem (m_id (fst mt)) (ids ms) = true.
+Proof.
+  intros. apply mem_true_iff. unfold ids. apply in_map_iff. exists mt. split; [reflexivity|assumption].
+Qed.
+
+Lemma find_cvS : forall V E ms mt, nodup_z (ids ms) = true -> In mt ms ->
+  find_m (m_id (fst mt)) (cvS V E ms) = Some (fst mt, (snd mt, ser_ty V E (snd mt))).
+Proof.
+  induction ms as [|[m t] r IH]; intros mt Hnd Hin; [contradiction|].
+  cbn [ids map fst nodup_z] in Hnd. apply andb_prop in Hnd as [Hn1 Hn2].
+  cbn [cvS map find_m fst snd]. destruct Hin as [<-|Hin].
+  - cbn [fst snd]. now rewrite Z.eqb_refl.
+  - destruct (Z.eqb_spec (m_id m) (m_id (fst mt))) as [He|Hne].
+    + exfalso. apply negb_true_iff in Hn1. rewrite He in Hn1.
+      fold (ids r) in Hn1. now rewrite (in_ids mt r Hin) in Hn1.
+    + apply IH; assumption.
+Qed.
+
+Definition mem_hyp (V : ver) (E : endian) (ms : list (minfo * ty)) (d : dyn) : Prop :=
+  nodup_z (ids ms) = true /\
+  (V = V1 -> Forall (fun mt => m_opt (fst mt) = false) ms) /\
+  Forall (fun mt : minfo * ty =>
+    match lookup (m_id (fst mt)) d with
+    | Some v => rt_ok (ser_ty V E (snd mt) v) (fun buf => des_ty V E buf (snd mt)) v
+    | None => m_opt (fst mt) = true
+    end) ms.
+
+Lemma rt_value : forall V E ms d mt acc v, mem_hyp V E ms d -> In mt ms -> lookup (m_id (fst mt)) d = Some v ->
+  rt_ok (ser_value (cvS V E ms) d (m_id (fst mt)))
+        (fun buf => des_value (fst mt, (snd mt, des_ty V E buf (snd mt))) acc)
+        (insert (m_id (fst mt)) v acc).
+Proof.
+  intros V E ms d mt acc v [Hnd [Hopt1 Hmem]] Hin Hv.
+  pose proof Hmem as Hm. rewrite Forall_forall in Hm. specialize (Hm mt Hin). rewrite Hv in Hm.
+  apply (rt_ext (ser_ty V E (snd mt) v) _
+           (fun buf pos => dbind (des_ty V E buf (snd mt) pos)
+                                 (fun x p => DOk ((fun x => insert (m_id (fst mt)) x acc) x) p))).
+  - intros pos. unfold ser_value. rewrite find_cvS by assumption. unfold get. rewrite Hv. reflexivity.
+  - reflexivity.
+  - apply (rt_map _ _ v (fun x => insert (m_id (fst mt)) x acc)). exact Hm.
+Qed.
+
+Lemma rt_fmember : forall V E ms d mt acc, mem_hyp V E ms d -> In mt ms ->
+  rt_ok (ser_fmember V E (cvS V E ms) d (m_id (fst mt)))
+        (fun buf => des_fmember V E buf (fst mt, (snd mt, des_ty V E buf (snd mt))) acc)
+        (match lookup (m_id (fst mt)) d with
+         | Some v => insert (m_id (fst mt)) v acc
+         | None => acc
+         end).
+Proof.
+  intros V E ms d mt acc HH Hin. pose proof HH as [Hnd [Hopt1 Hmem]].
+  pose proof Hmem as Hm. rewrite Forall_forall in Hm. specialize (Hm mt Hin).
+  unfold ser_fmember, des_fmember. cbn [fst].
+  destruct (m_opt (fst mt)) eqn:Hopt.
+  - (* optional: only XCDR2 *)
+    destruct V eqn:HV.
+    { pose proof (Hopt1 eq_refl) as Ho. rewrite Forall_forall in Ho. specialize (Ho mt Hin). congruence. }
+    destruct (lookup (m_id (fst mt)) d) as [v|] eqn:Hv.
+    + eapply rt_ext with (f := seq2 (ser_prim V2 E KBool 1) (ser_value (cvS V2 E ms) d (m_id (fst mt)))).
+      * intros pos. rewrite find_cvS by assumption. rewrite Hopt.
+        unfold ser_opt_fmember. rewrite Hv. reflexivity.
+      * intros buf pos. unfold des_opt_fmember. reflexivity.
+      * apply (rt_bind _ _ (fun buf => des_prim V2 E buf KBool)
+                 (fun b buf p => if b =? 1
+                    then des_value (fst mt, (snd mt, des_ty V2 E buf (snd mt))) acc p
+                    else DOk acc p) 1).
+        -- apply rt_prim; [reflexivity|discriminate|apply align1].
+        -- change (1 =? 1) with true. cbv iota. now apply rt_value.
+    + eapply rt_ext with (f := ser_prim V2 E KBool 0).
+      * intros pos. rewrite find_cvS by assumption. rewrite Hopt.
+        unfold ser_opt_fmember. rewrite Hv. reflexivity.
+      * intros buf pos. unfold des_opt_fmember. reflexivity.
+      * intros pos Hpos.
+        destruct (rt_prim V2 E KBool 0 eq_refl ltac:(discriminate) (align1 V2) pos Hpos) as [bs [E1 D1]].
+        exists bs. split; [exact E1|]. intros pre post Hpre. now rewrite (D1 pre post Hpre).
+  - destruct (lookup (m_id (fst mt)) d) as [v|] eqn:Hv; [|congruence].
+    eapply rt_ext with (f := ser_value (cvS V E ms) d (m_id (fst mt))).
+    + intros pos. rewrite find_cvS by assumption. now rewrite Hopt.
+    + reflexivity.
+    + now apply rt_value.
+Qed.
+
+Lemma rt_fmembers : forall V E ms d app ms2 acc, mem_hyp V E ms d -> incl ms2 ms ->
+  rt_ok (ser_list (fun mx : minfo * (ty * F) => ser_fmember V E (cvS V E ms) d (m_id (fst mx))) (cvS V E ms2))
+        (fun buf => des_fstruct V E buf app (cvD V E buf ms2) acc)
+        (ins ms2 d acc).
+Proof.
+  intros V E ms d app ms2 acc HH. revert acc.
+  induction ms2 as [|mt r IH]; intros acc Hincl.
+  - apply rt_nil.
+  - intros pos Hpos.
+    assert (Hin : In mt ms) by (apply Hincl; now left).
+    destruct (rt_fmember V E ms d mt acc HH Hin pos Hpos) as [b1 [E1 D1]].
+    pose proof (blen_nonneg b1).
+    set (acc' := match lookup (m_id (fst mt)) d with
+                 | Some v => insert (m_id (fst mt)) v acc | None => acc end) in *.
+    assert (Hincl' : incl r ms) by (intros x Hx; apply Hincl; now right).
+    destruct (IH acc' Hincl' (pos + blen b1) ltac:(lia)) as [b2 [E2 D2]].
+    exists (b1 ++ b2). split.
+    + cbn [cvS map ser_list fst]. rewrite E1. cbn [bind].
+      fold (cvS V E r). rewrite E2. cbn [bind]. rewrite blen_app. f_equal. f_equal. lia.
+    + intros pre post Hpre. cbn [cvD map des_fstruct].
+      replace (pre ++ (b1 ++ b2) ++ post) with (pre ++ b1 ++ (b2 ++ post)) by now rewrite <- !app_assoc.
+      rewrite (D1 pre (b2 ++ post) Hpre).
+      replace (pre ++ b1 ++ b2 ++ post) with ((pre ++ b1) ++ b2 ++ post) by now rewrite <- !app_assoc.
+      fold (cvD V E ((pre ++ b1) ++ b2 ++ post) r).
+      rewrite (D2 (pre ++ b1) post) by (rewrite blen_app; lia).
+      unfold ins. cbn [fold_left]. fold acc'. rewrite blen_app. f_equal. lia.
+Qed.
+
+Lemma rt_struct : forall V E ms d x, mem_hyp V E ms d -> x <> Mutable ->
+  rt_ok (ser_struct_nested V E x (cvS V E ms) d)
+        (fun buf => des_struct_nested V E buf x (cvD V E buf ms))
+        (ins ms d []).
+Proof.
+  intros V E ms d x HH Hx. destruct x; [| |congruence]; unfold ser_struct_nested, des_struct_nested.
+  - apply (rt_fmembers V E ms d false ms [] HH). apply incl_refl.
+  - unfold ser_appendable. destruct V.
+    + apply (rt_fmembers V1 E ms d true ms [] HH). apply incl_refl.
+    + apply (rt_dheader_ignore V2 E _
+               (fun buf => des_fstruct V2 E buf true (cvD V2 E buf ms) [])).
+      apply (rt_fmembers V2 E ms d true ms [] HH). apply incl_refl.
+Qed.
+
